@@ -92,7 +92,8 @@ def tigerxml_build_tree(s_element, **params):
                                     + coindexseparator\
                                     + label_parts.coindex \
                                     + label_parts.headmarker
-            subtree.data['edge'] = label_parts.gf
+            if label_parts.gf != trees.DEFAULT_EDGE:
+                subtree.data['edge'] = label_parts.gf
     return top
 
 
@@ -412,7 +413,8 @@ def export_parse_line(line, **params):
                           + separator\
                           + label_parts.coindex\
                           + label_parts.headmarker
-        fields['edge'] = label_parts.gf
+        if label_parts.gf != trees.DEFAULT_EDGE:
+            fields['edge'] = label_parts.gf
     return fields
 
 
